@@ -54,7 +54,15 @@ func (c *levelFilterCore) Enabled(lvl Level) bool {
 }
 
 func (c *levelFilterCore) Level() Level {
-	return LevelOf(c.level)
+	// The minimum level is the first one that both the filter and the wrapped
+	// core enable. LevelOf(c.level) alone goes stale when the wrapped core's
+	// level is raised later (for example through a shared AtomicLevel).
+	for lvl := _minLevel; lvl <= _maxLevel; lvl++ {
+		if c.Enabled(lvl) {
+			return lvl
+		}
+	}
+	return InvalidLevel
 }
 
 func (c *levelFilterCore) With(fields []Field) Core {
